@@ -466,7 +466,7 @@ pub fn run(a: &Args) -> i32 {
     let root = crate::e1::scratch_root();
     let _ = std::fs::create_dir_all(&root);
     let cnt = Counters::default();
-    let cases = a.tier.pick(240, 4000);
+    let cases = a.tier.pick(240, 30000);
     let samples: Mutex<Vec<J>> = Mutex::new(vec![]);
     let thorough = a.tier == crate::evidence::Tier::Thorough;
     // The sequences run in shard subprocesses: a tree whose structure went wrong can recurse
